@@ -28,7 +28,7 @@ def overlay_of(patch):
         r = subprocess.run(["patch", "-p1", "-s", "-d", tmp, "-i", patch], capture_output=True, text=True)
         if r.returncode:
             return None
-        return {f: open(os.path.join(tmp, f), encoding="utf-8").read() for f in files if f.endswith(".py")}
+        return {f: open(os.path.join(tmp, f), encoding="utf-8").read() for f in files if f.endswith(".py") or f.endswith(".json")}
     finally:
         shutil.rmtree(tmp, ignore_errors=True)
 
